@@ -63,11 +63,34 @@ class Fn(object):
                 continue
             stack.extend(ast.iter_child_nodes(n))
 
+    def callee(self, call):
+        """Dotted name of the callee; a local name bound once to a dotted callable
+        (`strptime = datetime.datetime.strptime`) resolves to that callable."""
+        d = dotted(call.func)
+        if isinstance(call.func, ast.Name):
+            al = getattr(self, '_callee_alias', None)
+            if al is None:
+                al = {}
+                cnt = {}
+                for st in self.walk(None):
+                    if isinstance(st, ast.Assign) and len(st.targets) == 1 and isinstance(st.targets[0], ast.Name):
+                        cnt[st.targets[0].id] = cnt.get(st.targets[0].id, 0) + 1
+                        if isinstance(st.value, ast.Attribute) and dotted(st.value):
+                            al[st.targets[0].id] = dotted(st.value)
+                    elif isinstance(st, (ast.AugAssign, ast.For, ast.With)):
+                        for t in ast.walk(st.target if not isinstance(st, ast.With) else st):
+                            if isinstance(t, ast.Name) and isinstance(t.ctx, ast.Store):
+                                cnt[t.id] = cnt.get(t.id, 0) + 2
+                al = {k: v for k, v in al.items() if cnt.get(k) == 1 and k not in self.params}
+                self._callee_alias = al
+            return al.get(d, d)
+        return d
+
     def calls(self, name=None, pred=None, root=None):
         out = []
         for n in self.walk(root, into_nested=True):
             if isinstance(n, ast.Call):
-                d = dotted(n.func)
+                d = self.callee(n)
                 if name is not None:
                     names = (name,) if isinstance(name, str) else tuple(name)
                     if d not in names and not (d and any(d.endswith('.' + x) for x in names)):
@@ -125,6 +148,46 @@ class Fn(object):
     def ob(self, rule, inst, ok, node=None, detail='', key=None):
         return self.cx.ob(rule, inst, ok, self.mod, node if node is not None else self.ast,
                           self.qual, detail, key)
+
+    # -- equivalence up to temporaries ---------------------------------------------
+    def cdefs(self, **normkw):
+        """local name -> normal form of its unique plain definition (names never rebound, never modified
+        in place, not parameters): temporaries the code may have introduced for readability."""
+        key = tuple(sorted(normkw.items()))
+        cache = self.__dict__.setdefault('_cdefs', {})
+        if key in cache:
+            return cache[key]
+        counts, mutated = {}, set()
+        for n_ in self.cfg.nodes:
+            for nm in self.rd.gen[n_.id]:
+                counts[nm] = counts.get(nm, 0) + 1
+            mutated |= self.rd.mods[n_.id]
+        for c in self.calls():
+            if isinstance(c.func, ast.Attribute) and isinstance(c.func.value, ast.Name) and c.func.attr in (
+                    'append', 'extend', 'insert', 'pop', 'remove', 'sort', 'reverse', 'update', 'clear', 'fill'):
+                mutated.add(c.func.value.id)
+        out = {}
+        for st_ in self.stmts(ast.Assign):
+            if len(st_.targets) == 1 and isinstance(st_.targets[0], ast.Name):
+                nm = st_.targets[0].id
+                if counts.get(nm) == 1 and nm not in mutated and nm not in self.params:
+                    out[nm] = sym.Normalizer(**normkw).n(st_.value)
+        cache[key] = out
+        return out
+
+    def eqv(self, expr, spec, metas=(), fixed=None, env=None, **normkw):
+        """Does code expression `expr` compute the documented expression `spec` (source string or normal
+        form), up to temporaries introduced by the code?  Returns the binding of `metas` or None."""
+        pat = sym.norm(spec, env=env, **normkw) if isinstance(spec, str) else spec
+        term = sym.Normalizer(**normkw).n(expr) if isinstance(expr, ast.AST) else expr
+        m = sym.Metas({x: x for x in metas}, {}, self.cdefs(**normkw))
+        init = {k: (('var', v) if isinstance(v, str) else v) for k, v in (fixed or {}).items()}
+        for b in sym._unify(pat, term, init, m):
+            return b
+        return None
+
+    def eqv_any(self, expr, *specs, **kw):
+        return any(self.eqv(expr, s, **kw) is not None for s in specs)
 
 
 # ---------------------------------------------------------------------------
@@ -444,24 +507,24 @@ def inventory(fn, rule, items, metas, root=None, fixed=None, required=True, orde
                     or (pat[0] == 'expr' and repr(('attr', ('var', m), 'append')) in txt):
                 stored.add(m)
     pdefs = {m: v[0] for m, v in targets.items() if len(v) == 1 and m not in stored and m not in (fixed or {})}
-    cdefs = {}
-    counts = {}
-    for n_ in fn.cfg.nodes:
-        for nm in fn.rd.gen[n_.id]:
-            counts[nm] = counts.get(nm, 0) + 1
-    mutated = set()
-    for n_ in fn.cfg.nodes:
-        mutated |= fn.rd.mods[n_.id]
-    for c in fn.calls():
-        if isinstance(c.func, ast.Attribute) and isinstance(c.func.value, ast.Name) and c.func.attr in (
-                'append', 'extend', 'insert', 'pop', 'remove', 'sort', 'reverse', 'update', 'clear', 'fill'):
-            mutated.add(c.func.value.id)
-    for st_ in fn.stmts(ast.Assign, root):
-        if len(st_.targets) == 1 and isinstance(st_.targets[0], ast.Name):
-            nm = st_.targets[0].id
-            if counts.get(nm) == 1 and nm not in mutated and nm not in fn.params:
-                cdefs[nm] = mkN().n(st_.value)
+    cdefs = fn.cdefs(ordered_add=ordered_add)
     metas = sym.Metas(mnames, pdefs, cdefs)
+    # alternative reading of each statement: locals replaced by their unique reaching plain definition
+    alt = {}
+    for s_, nf_ in nfs:
+        if isinstance(s_, (ast.Assign, ast.Return, ast.Expr)) and not any(isinstance(a, (ast.FunctionDef, ast.Lambda)) and a is not fn.ast for a in fn.ancestors(s_)):
+            try:
+                N_ = sym.Normalizer(resolver=fn.resolver(s_), ordered_add=ordered_add)
+                if isinstance(s_, ast.Assign):
+                    a_nf = ('assign', nf_[1], N_.n(s_.value))
+                elif isinstance(s_, ast.Return):
+                    a_nf = ('return', N_.n(s_.value) if s_.value is not None else None)
+                else:
+                    a_nf = ('expr', N_.n(s_.value))
+                if a_nf != nf_ and '#phi' not in repr(a_nf):
+                    alt[id(s_)] = a_nf
+            except AnalysisError:
+                pass
     best = {'n': -1, 'binding': {}, 'matched': {}}
 
     def solve(i, binding, matched, skipped):
@@ -479,12 +542,14 @@ def inventory(fn, rule, items, metas, root=None, fixed=None, required=True, orde
         for s, nf in nfs:
             if any(s is m for m in matched.values()):
                 continue
-            for b in sym._unify(pat, nf, binding, metas):
-                matched[inst] = s
-                if solve(i + 1, b, matched, skipped):
-                    return True
-                del matched[inst]
-                break          # first unifier per statement is enough; alternatives differ only in AC order
+            done = False
+            for cand in ([nf] + ([alt[id(s)]] if id(s) in alt else [])):
+                for b in sym._unify(pat, cand, binding, metas):
+                    matched[inst] = s
+                    if solve(i + 1, b, matched, skipped):
+                        return True
+                    del matched[inst]
+                    break          # first unifier per reading is enough; alternatives differ only in AC order
         if pat[0] == 'assign' and len(pat[1]) == 1 and isinstance(pat[1][0], tuple) and pat[1][0][0] == 'var' \
                 and pat[1][0][1] in pdefs and pat[1][0][1] not in binding:
             if solve(i + 1, binding, matched, skipped + [pat[1][0][1]]):
@@ -615,3 +680,44 @@ def block_of(fn, st):
                 if x is st:
                     return h.body, i
     return None, None
+
+
+class Unsupported(Exception):
+    pass
+
+
+def _subst_env(expr, env):
+    import copy as _c
+
+    class S(ast.NodeTransformer):
+        def visit_Name(self, n):
+            if isinstance(n.ctx, ast.Load) and n.id in env:
+                return _c.deepcopy(env[n.id])
+            return n
+    return S().visit(_c.deepcopy(expr))
+
+
+def summarise(stmts, env=None):
+    """Symbolic summary of a straight-line/if-else block: name -> expression (AST) of its final value in
+    terms of the values on entry.  Spelling variants (temporaries, statement vs conditional expression)
+    get the same summary."""
+    env = dict(env or {})
+    for st in stmts:
+        if isinstance(st, ast.Assign) and len(st.targets) == 1 and isinstance(st.targets[0], ast.Name):
+            env[st.targets[0].id] = _subst_env(st.value, env)
+        elif isinstance(st, ast.If):
+            e1 = summarise(st.body, env)
+            e2 = summarise(st.orelse, env)
+            test = _subst_env(st.test, env)
+            for nm in set(e1) | set(e2):
+                a = e1.get(nm, ast.Name(id=nm, ctx=ast.Load()))
+                b = e2.get(nm, ast.Name(id=nm, ctx=ast.Load()))
+                if ast.dump(a) != ast.dump(b):
+                    env[nm] = ast.IfExp(test=test, body=a, orelse=b)
+                else:
+                    env[nm] = a
+        elif isinstance(st, (ast.Pass, ast.Expr)):
+            continue
+        else:
+            raise Unsupported(norm_stmt(st))
+    return env
